@@ -24,7 +24,12 @@ Record search := mkSearch {
   sk_host : name;                (* as the caller spelled it *)
   sk_chan : N;
   sk_deadline : option N;
-  sk_next : option (N * N) }.    (* next query time, delay (s) to use after it *)
+  sk_next : option (N * N);      (* next query time, delay (s) to use after it *)
+  (* bookkeeping that no output depends on; the schedule theorems are stated with it *)
+  sk_start : N;                  (* time of the resolve_hostname call *)
+  sk_timeout : option N;         (* the timeout given *)
+  sk_sent : nat;                 (* A+AAAA queries sent so far *)
+  sk_last : N }.                 (* time of the last one *)
 
 Record sst := mkSst { ss_cache : cache; ss_searches : list search; ss_open : list N }.
 Definition sst0 : sst := mkSst [] [] [].
@@ -74,7 +79,7 @@ Definition sp_call (now : N) (s : sst) (c : call) : sst * list (N * ev) * list q
   | CResolve host timeout chan =>
     let k := lower host in
     let dl := option_map (sat_add now) timeout in
-    let x := mkSearch k host chan dl (next_after now hp_host_first_delay dl) in
+    let x := mkSearch k host chan dl (next_after now hp_host_first_delay dl) now timeout 1 now in
     (mkSst (ss_cache s) (set_search x (ss_searches s)) (ss_open s ++ [chan]),
      (chan, EStarted host)
        :: map (fun g => (chan, EFound (fst g) (snd g))) (addresses_for_host (ss_cache s) host),
@@ -100,6 +105,7 @@ Definition sk_fire (now : N) (k : search) : search :=
   | Some (t, d) =>
     if hp_rerun_due now t
     then mkSearch (sk_key k) (sk_host k) (sk_chan k) (sk_deadline k) (next_after now d (sk_deadline k))
+                  (sk_start k) (sk_timeout k) (S (sk_sent k)) now
     else k
   | None => k
   end.
